@@ -39,6 +39,7 @@ PROPS["C07"] = dict(
         technique="Lean 4 proof over hand-written code-shaped model + regenerated CommitteeCount + Go/Lean differential correspondence against literal spec functions",
         design_ref="DESIGN.md 5/C07", engine="lean"),
     assumptions=[
+        "STATED DIVERGENCE from the specification: ComputeProposerIndex returns an error after 1000 x 32 rejected candidates, the specification's compute_proposer_index loops on. The ops `cpi` of mode committees reach the cut-off on the real code (installed hash functions without zero bytes / with rare zero bytes, effective balances 0 or tiny): the real code returns the error (no panic, no endless loop) exactly where the model does, while the specification's loop is still searching after 40000 candidates (spec column `any`); see input_distribution 'ComputeProposerIndex on the real code'. ComputeSyncCommitteeIndices has no cut-off (ops `csi` drive it beyond 32000 candidates); like the specification it would not terminate if no candidate were ever accepted",
         "configuration: SLOTS_PER_EPOCH, TARGET_COMMITTEE_SIZE non-zero, constants fit uint64, SHUFFLE_ROUND_COUNT <= 255",
         "registry size <= 2^40 (VALIDATOR_REGISTRY_LIMIT; the spec's shuffling function is undefined beyond), effective_balance*255, n*committee_count and epoch+EPOCHS_PER_HISTORICAL_VECTOR below 2^64 (the model uses unbounded naturals there)",
         "states reachable by the protocol have at least one active validator in the current epoch; with none, NewEpochsContext returns an error and no assignment is reported (spec column 'any' for committee queries, 'err' for proposers)",
